@@ -376,6 +376,67 @@ let transport_case (toks : string list) : string =
   | "S" :: _ -> "S b_answered=1 b_latency_ok=1 spin=0 a_content=1 a_value=1"
   | _ -> "BADCASE"
 
+(* ---------------- connection lifecycle (C08) ---------------- *)
+
+let lifecycle_case (toks : string list) : string =
+  match toks with
+  | [ mode; _workers; rounds; behs ] ->
+    let bs = List.filter (fun x -> x <> "") (String.split_on_char ',' behs) in
+    let rounds = int_of_string rounds in
+    let width = List.length bs in
+    (* descriptors are reused from round to round, as the kernel does *)
+    let conn_events fd b =
+      let f = nat_of_int fd in
+      if mode = "T" then (match b with
+        | "c" -> [ M.EAccept f; M.EEof f ]
+        | "d" | "f" | "h" -> [ M.EAccept f; M.EData f; M.EEof f ]
+        | "r" -> [ M.EAccept f; M.EData f; M.EErr0 f ]
+        | "R" -> [ M.EAccept f; M.EErr0 f ]
+        | "p" -> [ M.EAccept f; M.EData f; M.EWriteFail f; M.EErr0 f ]
+        | _ -> [])
+      else (match b with
+        | "c" -> [ M.EAccept f; M.EEof f ]
+        | "f" | "k" | "h" -> [ M.EAccept f; M.EData f; M.EEof f ]
+        | "d" | "b" -> [ M.EAccept f; M.EData f; M.EEof f ]
+        | "r" -> [ M.EAccept f; M.EData f; M.EErr0 f ]
+        | "i" -> [ M.EAccept f; M.EIdle f ]
+        | "j" | "m" -> [ M.EAccept f; M.EData f; M.EIdle f ]
+        | _ -> []) in
+    let request_seen b = List.mem b [ "f"; "k"; "h"; "r"; "m" ] in
+    (* interleave the connections of one round event by event *)
+    let rec interleave (ls : M.ev0 list list) : M.ev0 list =
+      let heads = List.filter_map (function [] -> None | x :: _ -> Some x) ls in
+      if heads = [] then [] else heads @ interleave (List.map (function [] -> [] | _ :: r -> r) ls) in
+    let evs = List.concat (List.init rounds (fun _ -> interleave (List.mapi (fun i b -> conn_events (i + 10) b) bs))) in
+    let st = M.lrun evs in
+    (* split the log per descriptor into connection records at each release *)
+    let recs = ref [] and after = ref 0 in
+    List.iteri (fun i b ->
+        let fd = i + 10 in
+        let cur = Buffer.create 8 in
+        let flush () = if Buffer.length cur > 0 then (recs := (b, Buffer.contents cur) :: !recs; Buffer.clear cur) in
+        List.iter (fun (f, c) ->
+            if int_of_nat f = fd then
+              (let told = Buffer.length cur > 0 && Buffer.nth cur (Buffer.length cur - 1) = 'D' in
+               match c with
+               | M.CConn -> if told then incr after; Buffer.add_char cur 'C'
+               | M.CInput -> if told then incr after;
+                 if not (Buffer.length cur > 0 && Buffer.nth cur (Buffer.length cur - 1) = 'I') then Buffer.add_char cur 'I'
+               | M.CDisc -> if told then incr after; Buffer.add_char cur 'D'
+               | M.CRelease -> flush ())) st.M.log0;
+        flush ()) bs;
+    let shown = List.map (fun (b, r) ->
+        if mode = "T" then r
+        else (* the Http handler sees requests, not raw input, and no connection callback *)
+          String.concat "" (List.filter_map (fun ch -> match ch with
+              | 'C' -> None | 'I' -> if request_seen b then Some "I" else None | c -> Some (String.make 1 c))
+              (List.init (String.length r) (String.get r)))) !recs in
+    let shown = List.sort compare shown in
+    ignore width;
+    Printf.sprintf "%s conns=%d logs=%s after_disc=%d fd_delta=%d" mode (List.length shown)
+      (if shown = [] then "-" else String.concat "," shown) !after (List.length st.M.peers)
+  | _ -> "BADCASE"
+
 (* ---------------- wire forms (C05, C02) ---------------- *)
 
 let bytes_of_string (s : string) : M.ascii list = List.init (String.length s) (fun i -> ascii_of_int (Char.code s.[i]))
@@ -440,6 +501,7 @@ let () =
     | "headers" -> header_case
     | "transport" -> transport_case
     | "wire" -> wire_case
+    | "lifecycle" -> lifecycle_case
     | _ -> failwith ("unknown area " ^ area) in
   try
     while true do
